@@ -541,3 +541,202 @@ def from_driver(t, x):
 
 def describe(t, v):
     return {"type": S.cql_name(t), "value": repr(v)[:300]}
+
+
+# ------------------------------------------------------------------ length-field boundary workloads (C01, C02)
+# Collection counts and element byte sizes that sit on the boundaries of the length fields used on the wire: one signed/unsigned
+# byte (127/128, 255/256: vint and varint prefixes), the v1/v2 [short] (32767/32768 = int16 vs uint16, 65535 = last value) and,
+# for protocol >= 3 only, the first value beyond the [short] (65536).
+BOUNDS_SMALL = (127, 128, 255, 256)
+BOUNDS_BIG = (32767, 32768, 65535)
+BOUNDS_OVER = (65536,)
+VINT_BOUNDS = (127, 128, 16383, 16384)          # unsigned-vint size prefix of variable-width vector elements: 1/2/3 bytes
+
+
+def sized_value(rng, nbytes, hashable=False, kind=None):
+    """(type, canonical value) whose serialized form as a collection element / tuple field (v3+ inner layout) is exactly
+    ``nbytes`` long.  ``hashable``: usable as a set element / map key (no nested multi-cell collections)."""
+    kinds = ['blob', 'text', 'ascii', 'tuple']
+    if not hashable:
+        kinds += ['list', 'udt', 'map']
+    if nbytes <= 256:
+        kinds += ['varint', 'decimal']
+    k = kind or rng.choice(kinds)
+    if k in ('tuple', 'udt') and nbytes < 4 or k == 'list' and nbytes < 8 or k == 'map' and nbytes < 13 or k == 'decimal' and nbytes < 5:
+        k = 'blob'
+    fill = rng.getrandbits(8)
+
+    def blob(n):
+        return bytes([fill, 0xff]) * (n // 2) + bytes([fill]) * (n % 2)
+    if k == 'blob':
+        return ('blob',), blob(nbytes)
+    if k == 'ascii':
+        return ('ascii',), chr(33 + fill % 90) * nbytes
+    if k == 'text':
+        two = min(nbytes // 2, rng.choice([0, 1, 3]))        # a few 2-byte characters, the rest 1-byte
+        return ('text',), '\xe9' * two + chr(33 + fill % 90) * (nbytes - 2 * two)
+    if k == 'varint':
+        return ('varint',), rng.choice([(1 << (8 * nbytes - 1)) - 1 - fill, -(1 << (8 * nbytes - 1)) + fill])
+    if k == 'decimal':
+        unscaled = rng.choice([(1 << (8 * (nbytes - 4) - 1)) - 1 - fill, -(1 << (8 * (nbytes - 4) - 1)) + fill])
+        sign, digits, _ = decimal.Decimal(unscaled).as_tuple()
+        return ('decimal',), decimal.Decimal((sign, digits, rng.randint(-3, 3)))
+    if k == 'tuple':
+        return ('tuple', ('blob',)), (blob(nbytes - 4),)
+    if k == 'udt':
+        return ('udt', 'ks1', 'sized_u', (('payload', ('blob',)),)), (blob(nbytes - 4),)
+    if k == 'list':
+        return ('frozen', ('list', ('blob',))), [blob(nbytes - 8)]
+    if k == 'map':
+        return ('frozen', ('map', ('tinyint',), ('blob',))), [(fill % 128, blob(nbytes - 13))]
+    raise AssertionError(k)
+
+
+def _small_value(rng, t, i):
+    """A short value of type t (as produced by sized_value), different for different i."""
+    t0 = S.strip(t)
+    k = t0[0]
+    if k == 'blob':
+        return bytes([i, i + 1])
+    if k in ('ascii', 'text'):
+        return 'k%d' % i
+    if k in ('varint',):
+        return i
+    if k == 'decimal':
+        return decimal.Decimal(i)
+    if k in ('tuple', 'udt'):
+        return (bytes([i]),)
+    if k == 'list':
+        return [bytes([i])]
+    if k == 'map':
+        return [(i, bytes([i]))]
+    raise AssertionError(k)
+
+
+def wrap_inner(rng, t, v, pv):
+    """Put (t, v) in a non-top-level position, where collections always use the v3+ layout."""
+    w = rng.choice(['tuple', 'udt', 'list', 'mapval'] + (['vector'] if pv >= 3 else []))
+    if w == 'tuple':
+        return ('tuple', ('int',), t, ('text',)), (7, v, 'end')
+    if w == 'udt':
+        return ('udt', 'ks1', 'wrap_u', (('a', t), ('z', ('int',)))), (v, -7)
+    if w == 'list':
+        return ('list', ('frozen', t) if t[0] in ('list', 'set', 'map') else t), [v]
+    if w == 'mapval':
+        return ('map', ('int',), ('frozen', t) if t[0] in ('list', 'set', 'map') else t), [(1, v)]
+    return ('vector', t, 2), [v, v]
+
+
+def count_case(rng, kind, n):
+    """A list / set / map with exactly n cheap elements."""
+    if kind == 'list':
+        et = rng.choice(['tinyint', 'boolean', 'smallint'])
+        if et == 'boolean':
+            vals = [bool((i * 7 + n) & 4) for i in range(n)]
+        elif et == 'tinyint':
+            vals = [(i * 37 + n) % 256 - 128 for i in range(n)]
+        else:
+            vals = [(i * 7919 + n) % 65536 - 32768 for i in range(n)]
+        return ('list', (et,)), vals
+    base = rng.randint(-1000, 1000)
+    et = rng.choice(['int', 'bigint'] if n > 65536 else ['int', 'bigint', 'smallint'])
+    if et == 'smallint':
+        base = -32768
+    keys = list(range(base, base + n))          # ascending: the order sets and Cassandra's maps come back in
+    if kind == 'set':
+        return ('set', (et,)), keys
+    vt = rng.choice(['tinyint', 'boolean'])
+    return ('map', (et,), (vt,)), [(kk, (i % 2 == 0) if vt == 'boolean' else (i * 31) % 256 - 128) for i, kk in enumerate(keys)]
+
+
+def elemsize_case(rng, kind, nbytes):
+    """A list / set / map with a small, a boundary-sized (nbytes) and another small element; kind 'mapkey' / 'mapval' puts the
+    boundary-sized value in the key / value position."""
+    hashable = kind in ('set', 'mapkey')
+    t, big = sized_value(rng, nbytes, hashable=hashable)
+    a, b = _small_value(rng, t, 1), _small_value(rng, t, 2)
+    if kind == 'list':
+        return ('list', t), [a, big, b]
+    if kind == 'set':
+        return ('set', t), [a, big, b]
+    if kind == 'mapkey':
+        return ('map', t, ('int',)), [(a, 1), (big, 2), (b, 3)]
+    if kind == 'mapval':
+        return ('map', ('int',), t), [(1, a), (2, big), (3, b)]
+    raise AssertionError(kind)
+
+
+def boundary_cases(rng, pv, big_counts='all', big_count_kinds=('list', 'set', 'map')):
+    """Yield (cls, label, boundary, type, canonical value) for protocol version pv.
+
+    cls 'count': collections with 127..65535(6) elements; 'elemsize': collections with one element of 127..65535(6) bytes (list,
+    set, map key, map value); 'field': tuple / UDT fields of those sizes; 'vector': variable-width vector elements whose unsigned-vint
+    size prefix changes width, and vector dimensions 127..256.  big_counts: 'all' = every count in BOUNDS_BIG (+BOUNDS_OVER for
+    pv >= 3) for every kind in big_count_kinds; 'v1v2' = 32768 for every kind + 32767 and 65535 for one random kind each; an int =
+    that many randomly chosen (kind, count) pairs."""
+    over = BOUNDS_OVER if pv >= 3 else ()
+    for kind in ('list', 'set', 'map'):
+        for n in BOUNDS_SMALL:
+            t, v = count_case(rng, kind, n)
+            if rng.random() < 0.3:
+                t, v = wrap_inner(rng, t, v, pv)
+            yield 'count', '%s count=%d' % (S.cql_name(t), n), n, t, v
+    pairs = [(kind, n) for kind in big_count_kinds for n in BOUNDS_BIG + over]
+    if big_counts == 'v1v2':
+        # the [short] framing: 32768 (first count an int16 reads differently) for every kind, 32767 and 65535 for one kind each
+        pairs = [(kind, 32768) for kind in big_count_kinds] + [(rng.choice(big_count_kinds), 32767), (rng.choice(big_count_kinds), 65535)]
+    elif big_counts != 'all':
+        pairs = rng.sample(pairs, min(len(pairs), big_counts))
+    for kind, n in pairs:
+        t, v = count_case(rng, kind, n)
+        yield 'count', '%s count=%d' % (S.cql_name(t), n), n, t, v
+    for kind in ('list', 'set', 'mapkey', 'mapval'):
+        for nb in BOUNDS_SMALL + BOUNDS_BIG + over:
+            t, v = elemsize_case(rng, kind, nb)
+            if nb not in BOUNDS_BIG and rng.random() < 0.25:
+                t, v = wrap_inner(rng, t, v, pv)
+            yield 'elemsize', '%s %s elem=%dB' % (kind, S.cql_name(t), nb), nb, t, v
+    for nb in BOUNDS_SMALL + BOUNDS_BIG + BOUNDS_OVER:
+        et, big = sized_value(rng, nb)
+        if rng.random() < 0.5:
+            yield 'field', 'tuple field=%dB' % nb, nb, ('tuple', ('int',), et, ('text',)), (1, big, 'tail')
+        else:
+            yield 'field', 'udt field=%dB' % nb, nb, ('udt', 'ks1', 'sized_w', (('a', et), ('b', ('int',)))), (big, 2)
+    if pv >= 3:
+        for nb in VINT_BOUNDS + BOUNDS_SMALL[2:] + BOUNDS_BIG + BOUNDS_OVER:
+            et, big = sized_value(rng, nb, kind=rng.choice(['blob', 'text', 'ascii', 'tuple', 'list'] + (['varint'] if nb <= 256 else [])))
+            yield 'vector', 'vector elem=%dB' % nb, nb, ('vector', et, 3), [_small_value(rng, et, 1), big, _small_value(rng, et, 2)]
+        for n in BOUNDS_SMALL:
+            if rng.random() < 0.5:
+                yield 'vector', 'vector<int> dim=%d' % n, n, ('vector', ('int',), n), [(i * 7919) % 1000 - 500 for i in range(n)]
+            else:
+                yield 'vector', 'vector<text> dim=%d' % n, n, ('vector', ('text',), n), ['v%d' % i for i in range(n)]
+
+
+def flat_input(rng, t, v, ordered=False):
+    """Driver input for a count_case value (canonical form == driver form for int / bool scalars)."""
+    if t[0] == 'list':
+        return list(v)
+    if t[0] == 'set':
+        return list(v) if ordered or rng.random() < 0.5 else set(v)
+    return dict(v)
+
+
+def flat_equal(t, v, res):
+    """Is ``res`` (what the driver decoded) exactly the count_case value v?  Plain equality plus exact element types: the same
+    judgement as canon_key(from_driver(res)) == canon_key(v) for these types, without the per-element normaliser.  Never raises;
+    callers re-run anything but an exact match through the general path, which classifies it."""
+    try:
+        k = t[0]
+        if k == 'list':
+            return type(res) is list and res == v and set(map(type, res)) == set(map(type, v))
+        if k == 'set':
+            back = list(res)
+            return back == v and set(map(type, back)) == set(map(type, v))
+        if k == 'map':
+            back = list(res.items())
+            return (back == v and not (set(map(type, back)) - {tuple}) and {type(a) for a, _ in back} == {type(a) for a, _ in v}
+                    and {type(b) for _, b in back} == {type(b) for _, b in v})
+    except Exception:
+        pass
+    return False
